@@ -41,6 +41,8 @@ def cases(tier, seed):
         allp = rq.all_positions(dr, 1)
         for i in range(0, len(allp), 341):
             out.append(dict(t="routes", cs=cs, positions=allp[i:i + 341], seed=R.randrange(1 << 30)))
+        for i in range(2 if tier == "quick" else 12):
+            out.append(dict(t="live", cs=cs, depth=R.choice([2, 3]) if tier == "quick" else R.choice([2, 3, 4]), seed=R.randrange(1 << 30)))
         nd = 2000 if tier == "quick" else 50000
         for i in range(0, nd, 500):
             out.append(dict(t="deep", cs=cs, n=500, seed=R.randrange(1 << 30)))
@@ -263,6 +265,96 @@ def case_routes(spec):
     return r
 
 
+def case_live(spec):
+    """results stay what they were, and enumerations stay independent, while other work goes on in the same process:
+    (1) tiles handed out earlier are re-examined after the other coordinate system has been used through every route;
+    (2) several enumerations are advanced in lockstep / one is started and dropped inside another's loop."""
+    from toasty import toast
+    from toasty.pyramid import Pos
+    from toasty.toast import ToastCoordinateSystem as CS
+
+    cs = _cs(spec["cs"])
+    pl = spec["cs"] == "planetary"
+    ocs = CS.ASTRONOMICAL if pl else CS.PLANETARY
+    R = random.Random(spec["seed"])
+    D = spec["depth"]
+    probs = []
+    n = 0
+
+    def snap(t):
+        return (tuple(t.pos), np.array(t.corners, dtype=float).copy(), bool(t.increasing), t)
+
+    kept = [snap(t) for t in toast.generate_tiles(D, bottom_only=False, coordsys=cs)]
+    allp = rq.all_positions(D, 1)
+    kept += [snap(toast.create_single_tile(Pos(*p), coordsys=cs)) for p in R.sample(allp, min(20, len(allp)))]
+    for p in R.sample(allp, min(20, len(allp))):
+        rc, rinc = rt.tile_corners(p, pl)
+        lon, lat = rt.lonlat(rt.tile_centre(rc, rinc))
+        kept.append(snap(toast.toast_tile_for_point(p[0], float(lat), float(lon) % (2 * np.pi), coordsys=cs)))
+    running = toast.generate_tiles(D, bottom_only=False, coordsys=cs)  # an enumeration left half-way
+    head = [snap(next(running)) for _ in range(5)]
+    # ... the other coordinate system through every route
+    for t in toast.generate_tiles(D, bottom_only=True, coordsys=ocs):
+        pass
+    for p in R.sample(allp, min(10, len(allp))):
+        toast.create_single_tile(Pos(*p), coordsys=ocs)
+        toast.toast_tile_for_point(p[0], R.uniform(-1.5, 1.5), R.uniform(0, 6.28), coordsys=ocs)
+    list(toast.generate_tiles_filtered(D, lambda t: True, bottom_only=True, coordsys=ocs))
+    import itertools
+
+    LIM = 2 * len(allp) + 10  # an enumeration that does not end is cut here and shows up as a wrong sequence
+    rest = [snap(t) for t in itertools.islice(running, LIM)]
+    for (pos, c0, inc0, t) in kept + head:
+        n += 1
+        c1 = np.array(t.corners, dtype=float)
+        if c1.shape != c0.shape or not np.array_equal(c1, c0) or bool(t.increasing) != inc0 or tuple(t.pos) != pos:
+            probs.append("tile %s handed out earlier changed after the other coordinate system was used (corners moved by %.3g)" % (pos, float(np.abs(c1 - c0).max()) if c1.shape == c0.shape else -1))
+            if len(probs) > 6:
+                break
+        rc, rinc = rt.tile_corners(pos, pl)
+        _cmp_tile(t, rc, rinc, probs, "retained tile")
+    seq = [x[0] for x in head + rest]
+    solo = [tuple(t.pos) for t in toast.generate_tiles(D, bottom_only=False, coordsys=cs)]
+    if seq != solo:
+        probs.append("an enumeration resumed after other work yields a different sequence (%d vs %d positions)" % (len(seq), len(solo)))
+    for x in rest:
+        rc, rinc = rt.tile_corners(x[0], pl)
+        _cmp_tile(x[3], rc, rinc, probs, "resumed enumeration")
+    # (2) lockstep and nested-partial enumerations
+    solo_o = [tuple(t.pos) for t in toast.generate_tiles(D, bottom_only=False, coordsys=ocs)]
+    za, zo = [], []
+    for ta, to in itertools.islice(zip(toast.generate_tiles(D, bottom_only=False, coordsys=cs), toast.generate_tiles(D, bottom_only=False, coordsys=ocs)), LIM):
+        za.append(ta)
+        zo.append(to)
+    for name, got, ref, plx in (("this", za, solo, pl), ("the other", zo, solo_o, not pl)):
+        if [tuple(t.pos) for t in got] != ref:
+            probs.append("two enumerations advanced in lockstep: %s system yields %d positions, alone %d (or another order)" % (name, len(got), len(ref)))
+        for t in got[:: max(1, len(got) // 40)]:
+            rc, rinc = rt.tile_corners(tuple(t.pos), plx)
+            _cmp_tile(t, rc, rinc, probs, "lockstep enumeration (%s system)" % name)
+            n += 1
+    D2 = max(1, D - 1)
+    zb = list(itertools.islice(zip(toast.generate_tiles(D, bottom_only=True, coordsys=cs), toast.generate_tiles(D2, bottom_only=False, coordsys=cs)), LIM))
+    if [tuple(a.pos) for a, b in zb] != [tuple(t.pos) for t in toast.generate_tiles(D, bottom_only=True, coordsys=cs)][: len(zb)]:
+        probs.append("lockstep enumerations of depths %d and %d disturb each other" % (D, D2))
+    outer = []
+    for i, t in enumerate(itertools.islice(toast.generate_tiles(D, bottom_only=False, coordsys=cs), LIM)):
+        outer.append(tuple(t.pos))
+        if i % 7 == 3:
+            g = toast.generate_tiles_filtered(D, lambda tt: True, bottom_only=True, coordsys=R.choice([cs, ocs]))
+            next(g)
+            next(g)
+            del g  # a search started and dropped inside the loop body
+        if i % 11 == 5:
+            list(toast.generate_tiles(1, bottom_only=True, coordsys=ocs))  # a complete nested walk
+    if outer != solo:
+        probs.append("an enumeration with searches started and dropped inside its loop yields %d positions, alone %d (or another order)" % (len(outer), len(solo)))
+    r = dict(counters=dict(live_checks=n, live_cases=1), nontrivial=True)
+    if probs:
+        r.update(status="violation", key="toast-live-objects:" + spec["cs"], detail="; ".join(probs[:6]))
+    return r
+
+
 def case_deep(spec):
     from toasty import toast
     from toasty.pyramid import Pos
@@ -309,7 +401,7 @@ def case_deep(spec):
 
 
 def run_case(spec, workdir):
-    return dict(enum=case_enum, routes=case_routes, deep=case_deep)[spec["t"]](spec)
+    return dict(enum=case_enum, routes=case_routes, deep=case_deep, live=case_live)[spec["t"]](spec)
 
 
 def finish(agg, tier):
